@@ -3,7 +3,10 @@ package props
 import (
 	"fmt"
 	"go/ast"
+	"go/types"
 	"strings"
+
+	"golang.org/x/tools/go/cfg"
 
 	"verif/sa/core"
 )
@@ -20,59 +23,546 @@ const (
 	tailPath      = "internal/tailer.(*Tailer).TailPath"
 )
 
+// ---------------------------------------------------------------------------
+// Access descriptions: `x.f.g` as (object of x, fields f, g), following locals
+// that are defined once as an identifier or field selection (`src := lr.sourcename`).
+
+type accessDesc struct {
+	Root   types.Object
+	Fields []*types.Var
+}
+
+func (a *accessDesc) equal(b *accessDesc) bool {
+	if a == nil || b == nil || a.Root != b.Root || len(a.Fields) != len(b.Fields) {
+		return false
+	}
+	for i := range a.Fields {
+		if a.Fields[i] != b.Fields[i] {
+			return false
+		}
+	}
+	return true
+}
+
+func (a *accessDesc) String() string {
+	if a == nil {
+		return "?"
+	}
+	s := a.Root.Name()
+	for _, f := range a.Fields {
+		s += "." + f.Name()
+	}
+	return s
+}
+
+func accessOf(f *core.Func, e ast.Expr) *accessDesc {
+	info := f.Info()
+	for depth := 0; depth < 8; depth++ {
+		e = core.Unparen(e)
+		switch x := e.(type) {
+		case *ast.Ident:
+			o := identObj(info, x)
+			if o == nil {
+				return nil
+			}
+			if d := singleDef(f, o); d != nil {
+				switch core.Unparen(d).(type) {
+				case *ast.Ident, *ast.SelectorExpr:
+					if a := accessOf(f, d); a != nil {
+						return a
+					}
+				}
+			}
+			return &accessDesc{Root: o}
+		case *ast.SelectorExpr:
+			fv := fieldOf(info, x)
+			if fv == nil {
+				// package-qualified identifier
+				if o := info.Uses[x.Sel]; o != nil {
+					if _, isPkg := identObj(info, x.X).(*types.PkgName); isPkg {
+						return &accessDesc{Root: o}
+					}
+				}
+				return nil
+			}
+			base := accessOf(f, x.X)
+			if base == nil {
+				return nil
+			}
+			return &accessDesc{Root: base.Root, Fields: append(append([]*types.Var{}, base.Fields...), fv)}
+		case *ast.StarExpr:
+			e = x.X
+			continue
+		default:
+			return nil
+		}
+	}
+	return nil
+}
+
+// ---------------------------------------------------------------------------
+// Counter events: direct `V.Add(..)` calls on one expvar variable plus calls of
+// module helpers that perform exactly one such Add on every path.
+
+type c25Ev struct {
+	P       core.Point
+	N       ast.Node    // the Add call, or the call of the helper
+	Key     *accessDesc // key of a Map.Add in terms of the enclosing function's objects (nil = unresolved)
+	Delta   int64
+	DeltaOK bool
+	Via     *core.Func // helper through which the Add happens (nil = direct)
+}
+
+type c25Sum struct {
+	has     bool // an Add happens in the function or its helpers
+	regular bool // exactly one Add on every path to a normal exit, key/delta the same on all
+	ev      c25Ev
+	keyIdx  int // Key.Root is this parameter of the helper (-1 receiver, -2 other)
+	cnt     core.Cnt
+}
+
+type c25Site struct {
+	fn   *core.Func
+	call *ast.CallExpr
+}
+
+type c25Calls map[*core.Func][]c25Site
+
+func c25CallIndex(c *core.Check) c25Calls {
+	idx := c25Calls{}
+	for _, f := range shipped(c) {
+		core.InspectNoLit(f.Body, func(n ast.Node) bool {
+			if call, ok := n.(*ast.CallExpr); ok {
+				if cf := f.CalleeFunc(call); cf != nil {
+					idx[cf] = append(idx[cf], c25Site{f, call})
+				}
+			}
+			return true
+		})
+	}
+	return idx
+}
+
+type c25Events struct {
+	c      *core.Check
+	name   string
+	v      types.Object
+	isMap  bool
+	opaque map[*core.Func]bool // callees handled explicitly by a rule, never summarised
+	memo   map[*core.Func]*c25Sum
+	busy   map[*core.Func]bool
+	calls  c25Calls
+}
+
+func newC25Events(c *core.Check, calls c25Calls, pkgRel, name string, opaque ...*core.Func) *c25Events {
+	ce := &c25Events{c: c, name: name, v: pkgVar(c, pkgRel, name), opaque: map[*core.Func]bool{}, memo: map[*core.Func]*c25Sum{}, busy: map[*core.Func]bool{}, calls: calls}
+	if ce.v != nil {
+		ce.isMap = strings.HasSuffix(ce.v.Type().String(), "expvar.Map")
+	}
+	for _, o := range opaque {
+		if o != nil {
+			ce.opaque[o] = true
+		}
+	}
+	return ce
+}
+
+// onVar reports whether call is a method call of the expvar package on the variable.
+func (ce *c25Events) onVar(f *core.Func, call *ast.CallExpr) (method string, ok bool) {
+	id := f.CalleeID(call)
+	if !strings.HasPrefix(id, "expvar.") || ce.v == nil {
+		return "", false
+	}
+	r := core.RecvExpr(call)
+	if r == nil || usedObj(f.Info(), resolveAlias(f, r)) != ce.v {
+		return "", false
+	}
+	return id[strings.LastIndex(id, ".")+1:], true
+}
+
+// direct lists the V.Add calls of f (not in nested literals), in source order.
+func (ce *c25Events) direct(f *core.Func) []core.Hit {
+	return f.Graph().Calls(func(_ string, call *ast.CallExpr) bool {
+		m, ok := ce.onVar(f, call)
+		return ok && m == "Add"
+	})
+}
+
+// in lists the counter events of f and the calls of helpers whose effect on
+// the counter differs between their paths (irregular).
+func (ce *c25Events) in(f *core.Func) (evs []c25Ev, irregular []core.Hit) {
+	g := f.Graph()
+	for _, h := range ce.direct(f) {
+		call := h.N.(*ast.CallExpr)
+		ev := c25Ev{P: h.P, N: call}
+		di := 0
+		if ce.isMap {
+			di = 1
+			if len(call.Args) > 0 {
+				ev.Key = accessOf(f, call.Args[0])
+			}
+		}
+		if di < len(call.Args) {
+			ev.Delta, ev.DeltaOK = constInt(f.Info(), call.Args[di])
+		}
+		evs = append(evs, ev)
+	}
+	for _, h := range g.Find(func(n ast.Node) bool { _, ok := n.(*ast.CallExpr); return ok }) {
+		call := h.N.(*ast.CallExpr)
+		cf := f.CalleeFunc(call)
+		if cf == nil || cf.Lit != nil || cf == f || ce.opaque[cf] || h.InGo {
+			continue
+		}
+		s := ce.summary(cf)
+		if !s.has {
+			continue
+		}
+		if !s.regular {
+			irregular = append(irregular, h)
+			continue
+		}
+		ev := c25Ev{P: h.P, N: call, Delta: s.ev.Delta, DeltaOK: s.ev.DeltaOK, Via: cf}
+		if s.ev.Key != nil {
+			var base ast.Expr
+			switch {
+			case s.keyIdx == -1:
+				base = core.RecvExpr(call)
+			case s.keyIdx >= 0 && s.keyIdx < len(call.Args):
+				base = call.Args[s.keyIdx]
+			}
+			if base != nil {
+				if b := accessOf(f, base); b != nil {
+					ev.Key = &accessDesc{Root: b.Root, Fields: append(append([]*types.Var{}, b.Fields...), s.ev.Key.Fields...)}
+				}
+			} else if s.keyIdx == -2 {
+				if _, isLocal := s.ev.Key.Root.(*types.Var); isLocal && s.ev.Key.Root.Parent() == s.ev.Key.Root.Pkg().Scope() {
+					ev.Key = s.ev.Key // package-level variable: same object everywhere
+				}
+			}
+		}
+		evs = append(evs, ev)
+	}
+	// source order
+	for i := 1; i < len(evs); i++ {
+		for j := i; j > 0 && evs[j].N.Pos() < evs[j-1].N.Pos(); j-- {
+			evs[j], evs[j-1] = evs[j-1], evs[j]
+		}
+	}
+	return
+}
+
+// c25AtExit is the count when the function leaves by e: the count before the
+// exit's node plus the events inside the return statement itself
+// (`return countAndPass(name, err)`).
+func c25AtExit(ctr *core.Counter, e core.Exit, events []core.Point) core.Cnt {
+	n, _ := ctr.At(e.P)
+	for _, p := range events {
+		if p == e.P {
+			n.Min++
+			n.Max++
+		}
+	}
+	if n.Min > 2 {
+		n.Min = 2
+	}
+	if n.Max > 2 {
+		n.Max = 2
+	}
+	return n
+}
+
+func c25Points(evs []c25Ev) []core.Point {
+	var ps []core.Point
+	for _, e := range evs {
+		ps = append(ps, e.P)
+	}
+	return ps
+}
+
+func (ce *c25Events) summary(h *core.Func) *c25Sum {
+	if s, ok := ce.memo[h]; ok {
+		return s
+	}
+	if ce.busy[h] {
+		return &c25Sum{}
+	}
+	ce.busy[h] = true
+	defer delete(ce.busy, h)
+	s := &c25Sum{keyIdx: -2}
+	evs, irr := ce.in(h)
+	s.has = len(evs) > 0 || len(irr) > 0
+	if s.has && len(irr) == 0 {
+		g := h.Graph()
+		ctr := g.Count(nil, c25Points(evs), nil)
+		first := true
+		for _, e := range normalExits(g) {
+			if _, reach := ctr.At(e.P); !reach {
+				continue
+			}
+			n := c25AtExit(ctr, e, c25Points(evs))
+			if first {
+				s.cnt, first = n, false
+			} else {
+				if n.Min < s.cnt.Min {
+					s.cnt.Min = n.Min
+				}
+				if n.Max > s.cnt.Max {
+					s.cnt.Max = n.Max
+				}
+			}
+		}
+		same := true
+		for _, e := range evs[1:] {
+			if !(e.Key.equal(evs[0].Key) || (e.Key == nil && evs[0].Key == nil)) || e.Delta != evs[0].Delta || e.DeltaOK != evs[0].DeltaOK {
+				same = false
+			}
+		}
+		if !first && s.cnt.Min == 1 && s.cnt.Max == 1 && same {
+			s.regular = true
+			s.ev = evs[0]
+			if k := evs[0].Key; k != nil {
+				switch {
+				case k.Root == recvObj(h) && k.Root != nil:
+					s.keyIdx = -1
+				case paramIndexOf(h, k.Root) >= 0 && !assignedIn(h, k.Root):
+					s.keyIdx = paramIndexOf(h, k.Root)
+				}
+			}
+		}
+	}
+	ce.memo[h] = s
+	return s
+}
+
+// within reports whether f is one of the anchors or a literal nested in one.
+func within(f *core.Func, anchors map[*core.Func]bool) bool {
+	for x := f; x != nil; x = x.Parent {
+		if anchors[x] {
+			return true
+		}
+	}
+	return false
+}
+
+// strays lists the direct Adds of the counter that are outside the anchor
+// functions and not in a regular helper all of whose callers are accounted for.
+func (ce *c25Events) strays(anchors map[*core.Func]bool) (out []c25Site) {
+	var accounted func(f *core.Func, depth int) bool
+	accounted = func(f *core.Func, depth int) bool {
+		if within(f, anchors) {
+			return true
+		}
+		if f.Lit != nil || depth > 3 || !ce.summary(f).regular || len(ce.calls[f]) == 0 {
+			return false
+		}
+		for _, s := range ce.calls[f] {
+			if !accounted(s.fn, depth+1) {
+				return false
+			}
+		}
+		return true
+	}
+	for _, sf := range shipped(ce.c) {
+		hs := ce.direct(sf)
+		if len(hs) == 0 || accounted(sf, 0) {
+			continue
+		}
+		for _, h := range hs {
+			out = append(out, c25Site{sf, h.N.(*ast.CallExpr)})
+		}
+	}
+	return
+}
+
+// undecideIrregular reports helper calls whose counter effect is path dependent,
+// and Adds made inside function literals nested in f (deferred closures,
+// goroutines): those run at another time than the statement that contains them,
+// so the per-path count of f is not decided.
+func (ce *c25Events) undecideIrregular(rule string, f *core.Func, irr []core.Hit, handled ...*core.Func) {
+	own := map[*core.Func]bool{}
+	for _, h := range handled {
+		own[h] = true
+	}
+	for _, k := range ce.c.Prog.SortedFuncKeys() {
+		lf := ce.c.Prog.Funcs[k]
+		if lf == f || lf.Lit == nil || !within(lf, map[*core.Func]bool{f: true}) || within(lf, own) {
+			continue // (literals analysed as goroutine bodies of their own are decided there)
+		}
+		for _, h := range ce.direct(lf) {
+			ce.c.Undecided(rule, fmt.Sprintf("%s|%s in literal", lf.Key, ce.name), pos(ce.c, h.N), fmt.Sprintf("%s is changed inside a function literal of %s (deferred or concurrent code): the count per path of the enclosing function is not decided by this rule", ce.name, f.Key))
+		}
+	}
+	for _, h := range irr {
+		call := h.N.(*ast.CallExpr)
+		cf := f.CalleeFunc(call)
+		ce.c.Undecided(rule, fmt.Sprintf("%s|calls %s", f.Key, cf.Key), pos(ce.c, call), fmt.Sprintf("the callee changes %s on some of its paths only (or by differing keys): the per-path count in the caller is not decided by this rule", ce.name))
+	}
+}
+
+// pairedEitherOrder checks that the events as and bs strictly alternate on
+// every path, in one of the two orders (a then b, or b then a): at every exit
+// both have occurred the same number of times.
+func pairedEitherOrder(g *core.Graph, as, bs []core.Point) (msg string, trail []string, ok bool) {
+	msg, trail, ok = pairedEvents(g, as, bs)
+	if ok {
+		return
+	}
+	if _, _, ok2 := pairedEvents(g, bs, as); ok2 {
+		return "", nil, true
+	}
+	return
+}
+
+// mapStoresOn finds assignments `X.<field>[k] = v` (the map resolved through go/types).
+func mapStoresOn(g *core.Graph, field *types.Var) []core.Hit {
+	return g.Find(func(n ast.Node) bool {
+		as, ok := n.(*ast.AssignStmt)
+		if !ok || field == nil {
+			return false
+		}
+		for _, l := range as.Lhs {
+			if ix, ok := core.Unparen(l).(*ast.IndexExpr); ok && fieldOf(g.F.Info(), resolveAlias(g.F, ix.X)) == field {
+				return true
+			}
+		}
+		return false
+	})
+}
+
+// mapDeletesOn finds `delete(X.<field>, k)`.
+func mapDeletesOn(g *core.Graph, field *types.Var) []core.Hit {
+	return g.Calls(func(id string, call *ast.CallExpr) bool {
+		return id == "builtin.delete" && len(call.Args) == 2 && field != nil && fieldOf(g.F.Info(), resolveAlias(g.F, call.Args[0])) == field
+	})
+}
+
+// vmNameField is the field of vm.VM that vm.New fills from its name parameter.
+func vmNameField(c *core.Check) *types.Var {
+	if f := c.Prog.Fn("internal/runtime/vm.New"); f != nil {
+		p0 := paramAt(f, 0)
+		var out *types.Var
+		ast.Inspect(f.Body, func(n ast.Node) bool {
+			cl, ok := n.(*ast.CompositeLit)
+			if !ok {
+				return true
+			}
+			for _, el := range cl.Elts {
+				if kv, ok := el.(*ast.KeyValueExpr); ok && p0 != nil && identObj(f.Info(), kv.Value) == p0 {
+					if id, ok := kv.Key.(*ast.Ident); ok {
+						if fv, ok := f.Info().Uses[id].(*types.Var); ok && fv.IsField() {
+							out = fv
+						}
+					}
+				}
+			}
+			return true
+		})
+		if out != nil {
+			return out
+		}
+	}
+	return structField(c, "internal/runtime/vm", "VM", "name")
+}
+
+// terminateSets finds `X.terminate = true` (field resolved, constant true), also
+// inside literals deferred by f (counted at the defer statement).
+func terminateSets(g *core.Graph, field *types.Var) []core.Hit {
+	f := g.F
+	is := func(n ast.Node) bool {
+		as, ok := n.(*ast.AssignStmt)
+		if !ok || len(as.Lhs) != 1 || len(as.Rhs) != 1 || field == nil || fieldOf(f.Info(), as.Lhs[0]) != field {
+			return false
+		}
+		v, isC := constBool(f.Info(), as.Rhs[0])
+		return isC && v
+	}
+	out := g.Find(is)
+	for _, h := range g.Find(func(n ast.Node) bool { _, ok := n.(*ast.DeferStmt); return ok }) {
+		if lit, ok := core.Unparen(h.N.(*ast.DeferStmt).Call.Fun).(*ast.FuncLit); ok {
+			for _, st := range lit.Body.List { // unconditional statements of the deferred literal only
+				if is(st) {
+					out = append(out, h)
+				}
+			}
+		}
+	}
+	return out
+}
+
 func c25(c *core.Check) {
-	c.Explain = "Decides, for every control-flow path of the current source, that each self-monitoring counter is bumped exactly once per event: (R1) lines_total once per line received by the loader and once-per-line forwarding in the tailer; (R2) log_lines_total incremented, keyed by the stream's own name, exactly once for every line sent by a log stream, and no other code sends lines; (R3) prog_runtime_errors_total incremented exactly once per errorf and nowhere else, and the VM stops a line only through errorf or stop; (R4) every failing exit of the program load path passes exactly one load-error increment and no load increment, every successful swap exactly one load increment, the unchanged-contents short-circuit neither; (R5) unload counted exactly with the handle deletion; (R6) log_count +1/-1 paired with map insertion/removal. Counting is a min/max dataflow over the CFG (exact on all paths); what is not decided: that the events themselves are the right ones at run time, counter arithmetic inside expvar."
-	c.Assume = append(c.Assume, "expvar.Int/Map.Add are atomic and exact", "a non-literal-nil error result is treated as a failing exit")
+	c.Explain = "Decides, for every control-flow path of the current source, that each self-monitoring counter is bumped exactly once per event: (R1) lines_total once per line received by the loader and once-per-line forwarding in the tailer; (R2) log_lines_total incremented, keyed by the stream's own name, exactly once for every line sent by a log stream, and no other code sends lines; (R3) prog_runtime_errors_total incremented exactly once per errorf and nowhere else, and the VM stops a line only through errorf or stop; (R4) every failing exit of the program load path passes exactly one load-error increment and no load increment, every successful swap exactly one load increment, the unchanged-contents short-circuit neither; (R5) unload counted exactly with the handle deletion, under the deleted name; (R6) log_count +1/-1 paired with map insertion/removal. Counting is a min/max dataflow over the CFG (exact on all paths); an increment made by a helper function that performs exactly one Add on each of its paths counts at the helper's call sites. Variables, fields, parameters and callees are resolved through go/types, not by name. Not decided: that the events themselves are the right ones at run time, counter arithmetic inside expvar."
+	c.Assume = append(c.Assume, "expvar.Int/Map.Add are atomic and exact", "a non-literal-nil error result is treated as a failing exit",
+		"an increment and the event it counts may occur in either order within one function (the counters are compared with the events when the run is quiescent)")
+
+	calls := c25CallIndex(c)
+	carF := c.Prog.Fn(compileAndRun)
+	lineCount := newC25Events(c, calls, "internal/runtime", "LineCount")
+	progLoads := newC25Events(c, calls, "internal/runtime", "ProgLoads", carF)
+	progLoadErrors := newC25Events(c, calls, "internal/runtime", "ProgLoadErrors", carF)
+	progUnloads := newC25Events(c, calls, "internal/runtime", "ProgUnloads")
+	progRuntimeErrors := newC25Events(c, calls, "internal/runtime/vm", "ProgRuntimeErrors")
+	logLines := newC25Events(c, calls, "internal/tailer/logstream", "logLines")
+	logCount := newC25Events(c, calls, "internal/tailer", "logCount")
+	all := []*c25Events{lineCount, progLoads, progUnloads, progLoadErrors, progRuntimeErrors, logLines, logCount}
+	for _, ce := range all {
+		if ce.v == nil {
+			c.Undecided("C25-R7", "counter "+ce.name, "-", "the expvar variable was not found in its package")
+		}
+	}
+	forwarders := map[*core.Func]bool{} // functions whose sends of lines are decided under R1
 
 	// R1
-	c.Rule("C25-R1", "ONCE-PER-LINE: in the loader's fan-out loop `for line := range lines` every iteration passes exactly one LineCount.Add(1); the tailer's per-stream loop forwards each received line with exactly one send")
+	c.Rule("C25-R1", "ONCE-PER-LINE: in the loader's fan-out loop `for line := range lines` (in the goroutine started by runtime.New) every iteration passes exactly one LineCount.Add(1), and LineCount is incremented nowhere outside that loop; the tailer's per-stream loop forwards each received line with exactly one send")
 	if f := c.MustFn("C25-R1", runtimeNew); f != nil {
 		found := false
-		for _, lf := range goLits(c, f) {
+		anchors := map[*core.Func]bool{}
+		for _, gb := range goBodies(c, f) {
+			lf := gb.Fn
 			for _, rs := range rangeStmts(lf) {
 				if !isChanOfLogLine(lf.Info(), rs.X) {
 					continue
 				}
 				found = true
+				anchors[lf] = true
+				forwarders[lf] = true
 				c.Analysed(lf)
 				g := lf.Graph()
-				adds := expvarAdds(g, "LineCount")
-				cnt, ok := iterationCount(g, rs, core.HitPoints(adds))
+				adds, irr := lineCount.in(lf)
+				lineCount.undecideIrregular("C25-R1", lf, irr)
+				cnt, ok := iterationCount(g, rs, c25Points(adds))
 				c.Verdict(ok && cnt.Min == 1 && cnt.Max == 1, "C25-R1", lf.Key+"|LineCount per iteration", pos(c, rs), "exactly one", "lines_total is incremented "+cnt.String()+" times per received line")
 				for _, a := range adds {
-					call := a.N.(*ast.CallExpr)
-					v, isC := constInt(lf.Info(), call.Args[0])
-					c.Verdict(isC && v == 1, "C25-R1", lf.Key+"|LineCount delta", pos(c, call), "delta 1", "lines_total is not incremented by the constant 1")
+					c.Verdict(a.DeltaOK && a.Delta == 1, "C25-R1", lf.Key+"|LineCount delta", pos(c, a.N), "delta 1", "lines_total is not incremented by the constant 1")
+					if !(rs.Body.Pos() <= a.N.Pos() && a.N.End() <= rs.Body.End()) {
+						c.Fail("C25-R1", lf.Key+"|LineCount outside loop", pos(c, a.N), "lines_total is incremented outside the loader's fan-out loop")
+					}
 				}
-				// no LineCount.Add elsewhere
 			}
 		}
 		if !found {
-			c.Undecided("C25-R1", runtimeNew, pos(c, f.Decl), "fan-out loop over the lines channel not found")
-		}
-		n := 0
-		for _, sf := range shipped(c) {
-			for _, h := range expvarAdds(sf.Graph(), "LineCount") {
-				n++
-				if sf.Decl != f.Decl {
-					c.Fail("C25-R1", sf.Key+"|LineCount elsewhere", pos(c, h.N), "lines_total is incremented outside the loader's fan-out loop")
-				}
+			c.Undecided("C25-R1", runtimeNew, pos(c, f.Decl), "fan-out loop over the lines channel not found in a goroutine started by New")
+		} else {
+			for _, s := range lineCount.strays(anchors) {
+				c.Fail("C25-R1", s.fn.Key+"|LineCount elsewhere", pos(c, s.call), "lines_total is incremented outside the loader's fan-out loop")
 			}
 		}
 	}
 	if f := c.MustFn("C25-R1", tailPath); f != nil {
-		for _, lf := range goLits(c, f) {
+		for _, gb := range goBodies(c, f) {
+			lf := gb.Fn
 			c.Analysed(lf)
 			g := lf.Graph()
 			for _, rs := range rangeStmts(lf) {
 				if !isChanOfLogLine(lf.Info(), rs.X) {
 					continue
 				}
+				forwarders[lf] = true
 				cnt, ok := iterationCount(g, rs, core.HitPoints(sendsOfLines(g)))
 				c.Verdict(ok && cnt.Min == 1 && cnt.Max == 1, "C25-R1", lf.Key+"|forward per iteration", pos(c, rs), "exactly one send per received line", "the tailer forwards a received line "+cnt.String()+" times")
 				for _, s := range sendsOfLines(g) {
 					ss := s.N.(*ast.SendStmt)
-					okv := identObj(lf.Info(), ss.Value) != nil && identObj(lf.Info(), ss.Value) == identObj(lf.Info(), rs.Key)
+					v := identObj(lf.Info(), resolveAlias(lf, ss.Value))
+					okv := v != nil && v == identObj(lf.Info(), rs.Key)
 					c.Verdict(okv, "C25-R1", lf.Key+"|forwarded value", pos(c, ss), "the received line itself is forwarded", "the tailer does not forward the line it received")
 				}
 			}
@@ -81,8 +571,8 @@ func c25(c *core.Check) {
 	c.Floor("C25-R1", 4)
 
 	// R2
-	c.Rule("C25-R2", "COUNT-EACH-LINE: in package logstream every send of a line is preceded (since the previous send) by exactly one logLines.Add(<name>, 1) whose key is the file name put into the line, and every such Add is followed by a send; the only other sends of lines in shipped code are the tailer's forward and the loader's fan-out")
-	nsend := 0
+	c.Rule("C25-R2", "COUNT-EACH-LINE: in package logstream every send of a line is paired (strict alternation on every path) with exactly one logLines.Add(<name>, 1) whose key is the file name put into the line, and every such Add with a send; the only other sends of lines in shipped code are the tailer's forward and the loader's fan-out")
+	logAnchors := map[*core.Func]bool{}
 	for _, sf := range shipped(c) {
 		g := sf.Graph()
 		sends := sendsOfLines(g)
@@ -93,30 +583,29 @@ func c25(c *core.Check) {
 		rel := core.Rel(sf.Pkg.PkgPath)
 		switch {
 		case rel == "internal/tailer/logstream":
-			adds := expvarAdds(g, "logLines")
-			msg, trail, ok := pairedEvents(g, core.HitPoints(adds), core.HitPoints(sends))
+			logAnchors[sf] = true
+			adds, irr := logLines.in(sf)
+			logLines.undecideIrregular("C25-R2", sf, irr)
+			msg, trail, ok := pairedEitherOrder(g, c25Points(adds), core.HitPoints(sends))
 			c.Verdict(ok, "C25-R2", sf.Key+"|Add/send alternate", pos(c, sends[0].N), "each send has its own Add", "log_lines_total and delivered lines disagree: "+msg, trail...)
 			for i, s := range sends {
-				nsend++
 				ss := s.N.(*ast.SendStmt)
 				key := fmt.Sprintf("%s|send#%d key", sf.Key, i+1)
-				call, _ := core.Unparen(ss.Value).(*ast.CallExpr)
+				call, _ := resolveLocal(sf, ss.Value).(*ast.CallExpr)
 				if call == nil || sf.CalleeID(call) != "internal/logline.New" || len(call.Args) != 3 {
-					c.Fail("C25-R2", key, pos(c, ss), "the line sent is not built by logline.New(ctx, name, text) at the send site: cannot tie the counter key to the line's file name")
+					c.Fail("C25-R2", key, pos(c, ss), "the line sent is not built by logline.New(ctx, name, text) in this function: cannot tie the counter key to the line's file name")
 					continue
 				}
-				name := core.PathOf(call.Args[1])
-				okKey := len(adds) > 0
+				name := accessOf(sf, call.Args[1])
+				okKey := len(adds) > 0 && name != nil
 				for _, a := range adds {
-					ac := a.N.(*ast.CallExpr)
-					d, isC := constInt(sf.Info(), ac.Args[1])
-					if core.PathOf(ac.Args[0]) != name || !isC || d != 1 {
+					if !a.Key.equal(name) || !a.DeltaOK || a.Delta != 1 {
 						okKey = false
 					}
 				}
 				c.Verdict(okKey, "C25-R2", key, pos(c, ss), "counter keyed by the line's file name, delta 1", "log_lines_total is keyed by something other than the file name carried by the line, or not incremented by 1")
 			}
-		case sf.Decl.Name.Name == "TailPath" && rel == "internal/tailer", sf.Decl.Name.Name == "New" && rel == "internal/runtime":
+		case forwarders[sf]:
 			// forwarders, decided under R1
 		default:
 			for _, s := range sends {
@@ -124,66 +613,99 @@ func c25(c *core.Check) {
 			}
 		}
 	}
-	// logLines.Add anywhere without a send in the same function is caught by alternation only where sends exist; catch the rest
+	// delivery through a sending function of the package: one obligation per call site (the count is decided in the callee)
 	for _, sf := range shipped(c) {
-		g := sf.Graph()
-		if len(sendsOfLines(g)) == 0 {
-			for _, h := range expvarAdds(g, "logLines") {
-				c.Fail("C25-R2", sf.Key+"|Add without send", pos(c, h.N), "log_lines_total is incremented in a function that delivers no line")
-			}
+		if core.Rel(sf.Pkg.PkgPath) != "internal/tailer/logstream" {
+			continue
 		}
+		n := 0
+		core.InspectNoLit(sf.Body, func(x ast.Node) bool {
+			if call, ok := x.(*ast.CallExpr); ok {
+				if cf := sf.CalleeFunc(call); cf != nil && logAnchors[cf] {
+					n++
+					adds, _ := logLines.in(sf)
+					own := 0
+					for _, a := range adds {
+						if a.Via == nil {
+							own++
+						}
+					}
+					c.Verdict(own == 0 || logAnchors[sf], "C25-R2", fmt.Sprintf("%s|delivers via %s#%d", sf.Key, cf.Key, n), pos(c, call), "line counted in the callee that sends it", "a function that delivers lines through "+cf.Key+" (which counts them) increments log_lines_total itself as well")
+				}
+			}
+			return true
+		})
+	}
+	// an Add in a function that sends nothing, and is not a helper of the sending functions
+	for _, s := range logLines.strays(logAnchors) {
+		c.Fail("C25-R2", s.fn.Key+"|Add without send", pos(c, s.call), "log_lines_total is incremented in a function that delivers no line")
 	}
 	c.Floor("C25-R2", 4)
 
 	// R3
-	c.Rule("C25-R3", "ERRORS: ProgRuntimeErrors.Add(v.name, 1) occurs exactly once on every path through errorf and nowhere else; errorf sets v.terminate on every path; every other `terminate = true` is the stop instruction or directly follows a call of errorf")
-	if f := c.MustFn("C25-R3", vmErrorf); f != nil {
+	c.Rule("C25-R3", "ERRORS: ProgRuntimeErrors.Add(v.name, 1) occurs exactly once on every path through errorf and nowhere else; errorf sets v.terminate on every path; every other `terminate = true` is reached only through the stop instruction's case (opcode == code.Stop) or after a call of errorf")
+	termField := structField(c, "internal/runtime/vm", "VM", "terminate")
+	if termField == nil {
+		c.Undecided("C25-R3", "vm.VM.terminate", "-", "field not found")
+	}
+	errorfFn := c.MustFn("C25-R3", vmErrorf)
+	if f := errorfFn; f != nil {
 		g := f.Graph()
-		adds := expvarAdds(g, "ProgRuntimeErrors")
-		ctr := g.Count(nil, core.HitPoints(adds), nil)
+		adds, irr := progRuntimeErrors.in(f)
+		progRuntimeErrors.undecideIrregular("C25-R3", f, irr)
+		ctr := g.Count(nil, c25Points(adds), nil)
 		for _, e := range normalExits(g) {
-			cnt, _ := ctr.At(e.P)
+			cnt := c25AtExit(ctr, e, c25Points(adds))
 			c.Verdict(cnt.Min == 1 && cnt.Max == 1, "C25-R3", vmErrorf+"|count|exit="+e.String(), ppos(c, e.P, f), "exactly one increment", "a path through errorf increments prog_runtime_errors_total "+cnt.String()+" times")
 		}
+		want := &accessDesc{Root: recvObj(f), Fields: []*types.Var{vmNameField(c)}}
 		for _, a := range adds {
-			call := a.N.(*ast.CallExpr)
-			d, isC := constInt(f.Info(), call.Args[1])
-			c.Verdict(core.PathOf(call.Args[0]) == recvIdent(f)+".name" && isC && d == 1, "C25-R3", vmErrorf+"|key", pos(c, call), "keyed by the program's own name, delta 1", "the runtime error counter is not keyed by the VM's own program name with delta 1")
+			c.Verdict(a.Key.equal(want) && want.Root != nil && a.DeltaOK && a.Delta == 1, "C25-R3", vmErrorf+"|key", pos(c, a.N), "keyed by the program's own name, delta 1", "the runtime error counter is not keyed by the VM's own program name with delta 1")
 		}
-		term := g.Find(func(n ast.Node) bool {
-			as, ok := n.(*ast.AssignStmt)
-			return ok && len(as.Lhs) == 1 && strings.HasSuffix(core.PathOf(as.Lhs[0]), ".terminate") && exprStr(as.Rhs[0]) == "true"
-		})
+		term := terminateSets(g, termField)
 		if tr, found := pathAvoiding(g, nil, core.ExitPoints(normalExits(g)), core.HitPoints(term)); found {
 			c.Fail("C25-R3", vmErrorf+"|terminates", pos(c, f.Decl), "errorf can return without stopping the line: execution continues after a counted error and may raise (and count) further errors for the same fault", tr...)
 		} else {
 			c.Ok("C25-R3", vmErrorf+"|terminates", pos(c, f.Decl), "terminate set on every path")
 		}
-	}
-	for _, sf := range shipped(c) {
-		g := sf.Graph()
-		for _, h := range expvarAdds(g, "ProgRuntimeErrors") {
-			if sf.Key != vmErrorf {
-				c.Fail("C25-R3", sf.Key+"|Add elsewhere", pos(c, h.N), "prog_runtime_errors_total is incremented outside errorf")
-			}
+		for _, s := range progRuntimeErrors.strays(map[*core.Func]bool{f: true}) {
+			c.Fail("C25-R3", s.fn.Key+"|Add elsewhere", pos(c, s.call), "prog_runtime_errors_total is incremented outside errorf")
 		}
-		if core.Rel(sf.Pkg.PkgPath) != "internal/runtime/vm" || sf.Key == vmErrorf {
+	}
+	stopGuard := newGuard(guardSpec{atom: func(f *core.Func, e ast.Expr, _ func(ast.Expr) string) (bool, bool) {
+		be, ok := core.Unparen(e).(*ast.BinaryExpr)
+		if !ok || (be.Op.String() != "==" && be.Op.String() != "!=") {
+			return false, false
+		}
+		isStop := func(x ast.Expr) bool {
+			k, ok := usedObj(f.Info(), x).(*types.Const)
+			return ok && k.Name() == "Stop" && k.Pkg() != nil && core.Rel(k.Pkg().Path()) == "internal/runtime/code"
+		}
+		if !isStop(be.X) && !isStop(be.Y) {
+			return false, false
+		}
+		return be.Op.String() == "==", be.Op.String() == "!="
+	}})
+	for _, sf := range shipped(c) {
+		if core.Rel(sf.Pkg.PkgPath) != "internal/runtime/vm" || sf == errorfFn || errorfFn == nil {
 			continue
 		}
-		for i, h := range g.Find(func(n ast.Node) bool {
-			as, ok := n.(*ast.AssignStmt)
-			return ok && len(as.Lhs) == 1 && strings.HasSuffix(core.PathOf(as.Lhs[0]), ".terminate") && exprStr(as.Rhs[0]) == "true"
-		}) {
+		g := sf.Graph()
+		var stopEdge func(b *cfg.Block, si int) bool
+		for i, h := range terminateSets(g, termField) {
 			c.Analysed(sf)
 			key := fmt.Sprintf("%s|terminate#%d", sf.Key, i+1)
-			// allowed: inside `case code.Stop`, or every path to it passes an errorf call
-			if inCase(sf, h.N, "code.Stop") {
+			if stopEdge == nil {
+				stopEdge = stopGuard.edges(sf, nil, 0)
+			}
+			errs := g.CallsTo(vmErrorf)
+			// allowed: reached only through the Stop case, or every path to it passes an errorf call
+			if _, viaOther := g.Search(core.Query{Goal: core.At(h.P), AvoidEdge: stopEdge}); !viaOther {
 				c.Ok("C25-R3", key, pos(c, h.N), "stop instruction")
 				continue
 			}
-			errs := g.CallsTo(vmErrorf)
-			if tr, found := pathAvoiding(g, nil, []core.Point{h.P}, core.HitPoints(errs)); found {
-				c.Fail("C25-R3", key, pos(c, h.N), "the VM aborts the line without counting a runtime error", tr...)
+			if tr, found := g.Search(core.Query{Goal: core.At(h.P), Avoid: core.At(core.HitPoints(errs)...), AvoidEdge: stopEdge}); found {
+				c.Fail("C25-R3", key, pos(c, h.N), "the VM aborts the line without counting a runtime error", g.Trail(tr)...)
 			} else {
 				c.Ok("C25-R3", key, pos(c, h.N), "follows errorf")
 			}
@@ -192,16 +714,24 @@ func c25(c *core.Check) {
 	c.Floor("C25-R3", 5)
 
 	// R4
-	c.Rule("C25-R4", "LOAD-ACCOUNTING: in CompileAndRun every return of a non-nil error passes exactly one ProgLoadErrors.Add(name,1) and no ProgLoads.Add; the handle swap and every nil return after it pass exactly one ProgLoads.Add(name,1) and no ProgLoadErrors.Add; the unchanged-contents return passes neither. In LoadProgram every error return passes exactly one of {ProgLoadErrors.Add, call of CompileAndRun}")
+	c.Rule("C25-R4", "LOAD-ACCOUNTING: in CompileAndRun every return of a non-nil error passes exactly one ProgLoadErrors.Add(name,1) and no ProgLoads.Add; the handle swap and every nil return after it pass exactly one ProgLoads.Add(name,1) and no ProgLoadErrors.Add; the unchanged-contents return passes neither. In LoadProgram every error return passes exactly one of {ProgLoadErrors.Add, call of CompileAndRun}, and its own increment is keyed by the name it hands to CompileAndRun")
+	handlesField := structField(c, "internal/runtime", "Runtime", "handles")
+	if handlesField == nil {
+		c.Undecided("C25-R4", "runtime.Runtime.handles", "-", "field not found")
+	}
+	loadAnchors := map[*core.Func]bool{}
 	if f := c.MustFn("C25-R4", compileAndRun); f != nil {
+		loadAnchors[f] = true
 		g := f.Graph()
-		errAdds := expvarAdds(g, "ProgLoadErrors")
-		okAdds := expvarAdds(g, "ProgLoads")
-		ce := g.Count(nil, core.HitPoints(errAdds), nil)
-		co := g.Count(nil, core.HitPoints(okAdds), nil)
+		errAdds, irr1 := progLoadErrors.in(f)
+		okAdds, irr2 := progLoads.in(f)
+		progLoadErrors.undecideIrregular("C25-R4", f, irr1)
+		progLoads.undecideIrregular("C25-R4", f, irr2)
+		ce := g.Count(nil, c25Points(errAdds), nil)
+		co := g.Count(nil, c25Points(okAdds), nil)
 		for _, e := range normalExits(g) {
-			ne, _ := ce.At(e.P)
-			no, _ := co.At(e.P)
+			ne := c25AtExit(ce, e, c25Points(errAdds))
+			no := c25AtExit(co, e, c25Points(okAdds))
 			key := compileAndRun + "|exit=" + e.String()
 			if e.Kind == "return" && !returnsNil(f.Info(), e.Ret) {
 				c.Verdict(ne.Min == 1 && ne.Max == 1 && no.Max == 0, "C25-R4", key, ppos(c, e.P, f), "one load error, no load",
@@ -211,7 +741,26 @@ func c25(c *core.Check) {
 					fmt.Sprintf("a successful return passes %s load-error increments and %s load increments", ne.String(), no.String()))
 			}
 		}
-		stores := mapStores(g, ".handles")
+		stores := mapStoresOn(g, handlesField)
+		// the swap may live in a callee (`r.install(name, hash, v)`): its call is the swap point
+		storers := c.Prog.Reaching(func(sf *core.Func) bool {
+			if core.Rel(sf.Pkg.PkgPath) != "internal/runtime" {
+				return false
+			}
+			if len(mapStoresOn(sf.Graph(), handlesField)) > 0 {
+				return true
+			}
+			for _, l := range sf.Lits {
+				if len(mapStoresOn(l.Graph(), handlesField)) > 0 {
+					return true
+				}
+			}
+			return false
+		})
+		stores = append(stores, g.Calls(func(_ string, call *ast.CallExpr) bool {
+			cf := f.CalleeFunc(call)
+			return cf != nil && cf != f && storers[cf]
+		})...)
 		for i, s := range stores {
 			no, _ := co.At(s.P)
 			ne, _ := ce.At(s.P)
@@ -221,29 +770,52 @@ func c25(c *core.Check) {
 		if len(stores) == 0 {
 			c.Undecided("C25-R4", compileAndRun+"|swap", pos(c, f.Decl), "no store into r.handles found")
 		}
-		// the short-circuit: return inside the if that compares content hashes
-		for _, is := range ifsWhere(f, func(is *ast.IfStmt) bool { return exprCalls(f, is.Cond, "bytes.Equal") }) {
-			if start, ok := branchStart(g, is, true); ok {
-				all := append(core.HitPoints(errAdds), core.HitPoints(okAdds)...)
-				if tr, found := pathAvoiding(g, start, all, nil); found {
-					c.Fail("C25-R4", compileAndRun+"|unchanged", pos(c, is), "reloading unchanged contents bumps a load counter", tr...)
+		// the short-circuit: edges taken only when bytes.Equal found the content hash unchanged
+		same := newGuard(guardSpec{atom: func(af *core.Func, e ast.Expr, _ func(ast.Expr) string) (bool, bool) {
+			if call, ok := core.Unparen(e).(*ast.CallExpr); ok && af.CalleeID(call) == "bytes.Equal" {
+				return true, false
+			}
+			return false, false
+		}})
+		sameEdge := same.edges(f, nil, 0)
+		nshort := 0
+		allEv := append(c25Points(errAdds), c25Points(okAdds)...)
+		for _, b := range g.C.Blocks {
+			if !b.Live {
+				continue
+			}
+			for si := range b.Succs {
+				if !sameEdge(b, si) {
+					continue
+				}
+				nshort++
+				start := &core.Point{B: b.Succs[si], I: -1}
+				at := pos(c, b.Nodes[len(b.Nodes)-1])
+				if tr, found := pathAvoiding(g, start, allEv, nil); found {
+					c.Fail("C25-R4", compileAndRun+"|unchanged", at, "reloading unchanged contents bumps a load counter", tr...)
 				} else {
-					c.Ok("C25-R4", compileAndRun+"|unchanged", pos(c, is), "no counter on the unchanged-contents path")
+					c.Ok("C25-R4", compileAndRun+"|unchanged", at, "no counter on the unchanged-contents path")
 				}
 			}
 		}
-		for _, a := range append(errAdds, okAdds...) {
-			call := a.N.(*ast.CallExpr)
-			d, isC := constInt(f.Info(), call.Args[1])
-			c.Verdict(identObj(f.Info(), call.Args[0]) == paramObj(f, "name") && isC && d == 1, "C25-R4", compileAndRun+"|key", pos(c, call), "keyed by name, delta 1", "a load counter is not keyed by the program name with delta 1")
+		if nshort == 0 {
+			c.Undecided("C25-R4", compileAndRun+"|unchanged", pos(c, f.Decl), "no branch deciding on bytes.Equal of the content hashes found: the unchanged-contents short-circuit is not in a recognised shape")
+		}
+		name := paramAt(f, 0)
+		for _, a := range append(append([]c25Ev{}, errAdds...), okAdds...) {
+			c.Verdict(a.Key != nil && a.Key.Root == name && name != nil && len(a.Key.Fields) == 0 && a.DeltaOK && a.Delta == 1, "C25-R4", compileAndRun+"|key", pos(c, a.N), "keyed by name, delta 1", "a load counter is not keyed by the program name with delta 1")
 		}
 	}
 	if f := c.MustFn("C25-R4", loadProgram); f != nil {
+		loadAnchors[f] = true
 		g := f.Graph()
-		ev := append(core.HitPoints(expvarAdds(g, "ProgLoadErrors")), core.HitPoints(g.CallsTo(compileAndRun))...)
+		adds, irr := progLoadErrors.in(f)
+		progLoadErrors.undecideIrregular("C25-R4", f, irr)
+		cars := g.CallsTo(compileAndRun)
+		ev := append(c25Points(adds), core.HitPoints(cars)...)
 		ctr := g.Count(nil, ev, nil)
 		for _, e := range normalExits(g) {
-			n, _ := ctr.At(e.P)
+			n := c25AtExit(ctr, e, ev)
 			key := loadProgram + "|exit=" + e.String()
 			if e.Kind == "return" && !returnsNil(f.Info(), e.Ret) {
 				c.Verdict(n.Min == 1 && n.Max == 1, "C25-R4", key, ppos(c, e.P, f), "counted once", "a failing LoadProgram exit is counted "+n.String()+" times in prog_load_errors_total")
@@ -251,107 +823,133 @@ func c25(c *core.Check) {
 				c.Verdict(n.Max <= 1, "C25-R4", key, ppos(c, e.P, f), "at most one accounting event", "a LoadProgram exit passes "+n.String()+" accounting events")
 			}
 		}
-	}
-	for _, sf := range shipped(c) {
-		if sf.Decl.Name.Name == "CompileAndRun" || sf.Decl.Name.Name == "LoadProgram" {
-			continue
-		}
-		for _, v := range []string{"ProgLoadErrors", "ProgLoads"} {
-			for _, h := range expvarAdds(sf.Graph(), v) {
-				c.Fail("C25-R4", sf.Key+"|"+v+" elsewhere", pos(c, h.N), v+" is incremented outside the load path")
+		// the name LoadProgram counts its own failure under is the name CompileAndRun counts under
+		for _, a := range adds {
+			ok := a.DeltaOK && a.Delta == 1 && len(cars) > 0
+			for _, h := range cars {
+				if call := h.N.(*ast.CallExpr); len(call.Args) == 0 || !a.Key.equal(accessOf(f, call.Args[0])) {
+					ok = false
+				}
 			}
+			c.Verdict(ok, "C25-R4", loadProgram+"|key", pos(c, a.N), "keyed by the name passed to CompileAndRun, delta 1", "LoadProgram counts its load error under a key other than the program name it passes to CompileAndRun (or not by 1): the per-program load-error count disagrees with the events")
+		}
+	}
+	for _, ce := range []*c25Events{progLoadErrors, progLoads} {
+		for _, s := range ce.strays(loadAnchors) {
+			c.Fail("C25-R4", s.fn.Key+"|"+ce.name+" elsewhere", pos(c, s.call), ce.name+" is incremented outside the load path")
 		}
 	}
 	c.Floor("C25-R4", 12)
 
 	// R5
-	c.Rule("C25-R5", "UNLOAD: in UnloadProgram delete(r.handles, name) and ProgUnloads.Add(name,1) strictly alternate on every path, and ProgUnloads is incremented nowhere else")
+	c.Rule("C25-R5", "UNLOAD: in UnloadProgram delete(r.handles, name) and ProgUnloads.Add(name,1) strictly alternate on every path (same name, delta 1), and ProgUnloads is incremented nowhere else")
 	if f := c.MustFn("C25-R5", unloadProgram); f != nil {
 		g := f.Graph()
-		dels := g.Calls(func(id string, call *ast.CallExpr) bool {
-			return id == "builtin.delete" && strings.HasSuffix(core.PathOf(call.Args[0]), ".handles")
-		})
-		adds := expvarAdds(g, "ProgUnloads")
+		dels := mapDeletesOn(g, handlesField)
+		adds, irr := progUnloads.in(f)
+		progUnloads.undecideIrregular("C25-R5", f, irr)
 		if len(dels) == 0 || len(adds) == 0 {
-			c.Fail("C25-R5", unloadProgram, pos(c, f.Decl), "UnloadProgram does not both delete the handle and count the unload")
+			if len(irr) == 0 {
+				c.Fail("C25-R5", unloadProgram, pos(c, f.Decl), "UnloadProgram does not both delete the handle and count the unload")
+			}
 		} else {
-			msg, tr, ok := pairedEvents(g, core.HitPoints(dels), core.HitPoints(adds))
+			msg, tr, ok := pairedEitherOrder(g, core.HitPoints(dels), c25Points(adds))
 			c.Verdict(ok, "C25-R5", unloadProgram+"|delete/Add", pos(c, dels[0].N), "paired", "prog_unloads_total and actual unloads disagree: "+msg, tr...)
+			for _, a := range adds {
+				ok := a.DeltaOK && a.Delta == 1
+				for _, d := range dels {
+					if !a.Key.equal(accessOf(f, d.N.(*ast.CallExpr).Args[1])) {
+						ok = false
+					}
+				}
+				if !ok {
+					c.Fail("C25-R5", unloadProgram+"|key", pos(c, a.N), "prog_unloads_total is not incremented by 1 under the name whose handle is deleted: the per-program unload count disagrees with the unloads")
+				}
+			}
 		}
-	}
-	for _, sf := range shipped(c) {
-		if sf.Key == unloadProgram {
-			continue
-		}
-		for _, h := range expvarAdds(sf.Graph(), "ProgUnloads") {
-			c.Fail("C25-R5", sf.Key+"|ProgUnloads elsewhere", pos(c, h.N), "prog_unloads_total is incremented outside UnloadProgram")
+		for _, s := range progUnloads.strays(map[*core.Func]bool{f: true}) {
+			c.Fail("C25-R5", s.fn.Key+"|ProgUnloads elsewhere", pos(c, s.call), "prog_unloads_total is incremented outside UnloadProgram")
 		}
 	}
 	c.Floor("C25-R5", 1)
 
 	// R6
-	c.Rule("C25-R6", "LOG-COUNT: in TailPath the insertion into the stream map and logCount.Add(1) alternate; in its per-stream goroutine the deletion and logCount.Add(-1) alternate")
+	c.Rule("C25-R6", "LOG-COUNT: in TailPath the insertion into the stream map and logCount.Add(1) alternate; in its per-stream goroutine the deletion and logCount.Add(-1) alternate; log_count is changed nowhere else")
+	streamsField := structField(c, "internal/tailer", "Tailer", "logstreams")
+	if streamsField == nil {
+		c.Undecided("C25-R6", "tailer.Tailer.logstreams", "-", "field not found")
+	}
 	if f := c.MustFn("C25-R6", tailPath); f != nil {
 		g := f.Graph()
-		st := mapStores(g, ".logstreams")
-		var plus, minus []core.Hit
-		classify := func(gg *core.Graph, ff *core.Func) {
-			for _, h := range expvarAdds(gg, "logCount") {
-				d, isC := constInt(ff.Info(), h.N.(*ast.CallExpr).Args[0])
+		st := mapStoresOn(g, streamsField)
+		var bodies []*core.Func
+		for _, gb := range goBodies(c, f) {
+			bodies = append(bodies, gb.Fn)
+		}
+		classify := func(ff *core.Func) (plus, minus []c25Ev) {
+			evs, irr := logCount.in(ff)
+			logCount.undecideIrregular("C25-R6", ff, irr, bodies...)
+			for _, a := range evs {
 				switch {
-				case isC && d == 1:
-					plus = append(plus, h)
-				case isC && d == -1:
-					minus = append(minus, h)
+				case a.DeltaOK && a.Delta == 1:
+					plus = append(plus, a)
+				case a.DeltaOK && a.Delta == -1:
+					minus = append(minus, a)
 				default:
-					c.Fail("C25-R6", ff.Key+"|delta", pos(c, h.N), "log_count changed by something other than +1/-1")
+					c.Fail("C25-R6", ff.Key+"|delta", pos(c, a.N), "log_count changed by something other than +1/-1")
 				}
 			}
+			return
 		}
-		classify(g, f)
-		msg, tr, ok := pairedEvents(g, core.HitPoints(st), core.HitPoints(plus))
-		c.Verdict(ok && len(st) > 0, "C25-R6", tailPath+"|insert/+1", pos(c, f.Decl), "paired", "log_count and the set of tailed streams disagree: "+msg, tr...)
-		for _, lf := range goLits(c, f) {
+		plus, minus0 := classify(f)
+		msg, tr, ok := pairedEitherOrder(g, core.HitPoints(st), c25Points(plus))
+		c.Verdict(ok && len(st) > 0 && len(minus0) == 0, "C25-R6", tailPath+"|insert/+1", pos(c, f.Decl), "paired", "log_count and the set of tailed streams disagree: "+msg, tr...)
+		anchors := map[*core.Func]bool{f: true}
+		for _, gb := range goBodies(c, f) {
+			lf := gb.Fn
+			anchors[lf] = true
 			lg := lf.Graph()
-			plus, minus = nil, nil
-			classify(lg, lf)
-			dels := lg.Calls(func(id string, call *ast.CallExpr) bool {
-				return id == "builtin.delete" && strings.HasSuffix(core.PathOf(call.Args[0]), ".logstreams")
-			})
-			msg, tr, ok := pairedEvents(lg, core.HitPoints(dels), core.HitPoints(minus))
-			c.Verdict(ok && len(dels) > 0 && len(plus) == 0, "C25-R6", lf.Key+"|delete/-1", pos(c, lf.Lit), "paired", "log_count and the set of tailed streams disagree: "+msg, tr...)
+			plus, minus := classify(lf)
+			dels := mapDeletesOn(lg, streamsField)
+			msg, tr, ok := pairedEitherOrder(lg, core.HitPoints(dels), c25Points(minus))
+			c.Verdict(ok && len(dels) > 0 && len(plus) == 0, "C25-R6", lf.Key+"|delete/-1", pos(c, lf.Body), "paired", "log_count and the set of tailed streams disagree: "+msg, tr...)
+		}
+		for _, s := range logCount.strays(anchors) {
+			c.Fail("C25-R6", s.fn.Key+"|logCount elsewhere", pos(c, s.call), "log_count is changed outside TailPath and its per-stream goroutine")
 		}
 	}
 	c.Floor("C25-R6", 2)
 
 	c.Rule("C25-R7", "MONOTONE: the monitoring counters (lines_total, prog_loads_total, prog_unloads_total, prog_load_errors_total, prog_runtime_errors_total, log_lines_total, log_count) are only ever changed through Add in shipped code: no Set/Init/Delete that would reset or replace a counter")
-	counters := map[string]bool{"LineCount": true, "ProgLoads": true, "ProgUnloads": true, "ProgLoadErrors": true, "ProgRuntimeErrors": true, "logLines": true, "logCount": true}
 	nuse := 0
 	for _, sf := range shipped(c) {
-		for _, h := range sf.Graph().Calls(func(id string, call *ast.CallExpr) bool {
-			if !strings.HasPrefix(id, "expvar.") {
-				return false
-			}
-			r := core.RecvExpr(call)
-			if r == nil {
-				return false
-			}
-			p := core.PathOf(r)
-			if i := strings.LastIndex(p, "."); i >= 0 {
-				p = p[i+1:]
-			}
-			return counters[p]
-		}) {
-			nuse++
-			call := h.N.(*ast.CallExpr)
-			id := sf.CalleeID(call)
-			m := id[strings.LastIndex(id, ".")+1:]
-			switch m {
-			case "Add", "Get", "String", "Value", "Do":
-			default:
-				c.Fail("C25-R7", sf.Key+"|"+core.PathOf(core.RecvExpr(call))+"."+m, pos(c, call), "a monitoring counter is reset or replaced ("+m+") instead of incremented: its value no longer equals the number of events")
+		for _, ce := range all {
+			for _, h := range sf.Graph().Calls(func(_ string, call *ast.CallExpr) bool { _, ok := ce.onVar(sf, call); return ok }) {
+				nuse++
+				call := h.N.(*ast.CallExpr)
+				m, _ := ce.onVar(sf, call)
+				switch m {
+				case "Add", "Get", "String", "Value", "Do":
+				default:
+					c.Fail("C25-R7", sf.Key+"|"+core.PathOf(core.RecvExpr(call))+"."+m, pos(c, call), "a monitoring counter is reset or replaced ("+m+") instead of incremented: its value no longer equals the number of events")
+				}
 			}
 		}
+		// the variable itself must not be reassigned
+		core.InspectNoLit(sf.Body, func(n ast.Node) bool {
+			as, ok := n.(*ast.AssignStmt)
+			if !ok {
+				return true
+			}
+			for _, l := range as.Lhs {
+				for _, ce := range all {
+					if o := usedObj(sf.Info(), l); o != nil && o == ce.v {
+						c.Fail("C25-R7", sf.Key+"|"+ce.name+" reassigned", pos(c, as), "a monitoring counter variable is replaced by a new counter: the events counted so far are lost")
+					}
+				}
+			}
+			return true
+		})
 	}
 	c.Ok("C25-R7", "uses", "-", fmt.Sprintf("%d method calls on the counters inspected", nuse))
 	c.Floor("C25-R7", 1)
